@@ -379,6 +379,107 @@ def resEq (r : Option (UInt64 × UInt64 × UInt64 × UInt64)) (m : Option KBox) 
 def hasNaNBox (t : Tok) : Bool :=
   t.any fun s => s.length == 16 && (match parseU64 s with | some u => (keyOfBits u).isNone | none => false)
 
+/-! ### box lines with NaN sides (phase 4)
+
+NaN is outside the property's quantifier.  `Overlaps`, `Intersection`, `Empty` answers are judged by the clauses every
+reading demands axis by axis (SpecNaN.lean `OverlapsOkNaN`, `IntersectionOkNaN`, `EmptyOkNaN`; the decidable forms are
+`C04_spec_boxNaN`, the model satisfies them: `C04_nan_box_exec`) — SPEC — and every answer, `Extend` included, is
+compared with the model run at `NV FKey` (`math.Min/Max/<` with their NaN cases) — DIFF. -/
+
+abbrev NBox := Box (NV FKey)
+
+def nvq (q : UInt64 × UInt64 × UInt64 × UInt64) : NBox :=
+  ⟨⟨nvOfBits q.1, nvOfBits q.2.1⟩, ⟨nvOfBits q.2.2.1, nvOfBits q.2.2.2⟩⟩
+
+def pTwoN (t : Tok) : Option (NBox × Option NBox × Tok) := do
+  let (a, t) ← pBoxBits t
+  let (b, t) ← pBoxBits t
+  let a ← a
+  pure (nvq a, b.map nvq, t)
+
+def pBool : String → Option Bool
+  | "true" => some true
+  | "false" => some false
+  | _ => none
+
+def pBoxResN (n : Nat) (t : Tok) : Option (List (Option NBox) × Tok) :=
+  match n with
+  | 0 => some ([], t)
+  | n+1 => do
+    let (q, t) ← pBoxRes t
+    let (qs, t) ← pBoxResN n t
+    pure (q.map nvq :: qs, t)
+
+def judgeBoxNaN (kind : String) (t rhs : Tok) : String :=
+  let cls := kind ++ "-nan"
+  match kind with
+  | "ovl" =>
+    match pTwoN t, rhs.map pBool with
+    | some (a, some b, _), [some o1, some o2] =>
+      if !overlapsOkNaNB a b o1 || !overlapsOkNaNB b a o2 then
+        s!"SPEC {cls} Overlaps=true-although-on-an-axis-without-NaN-the-intervals-share-no-value"
+      else if o1 != a.overlaps b || o2 != b.overlaps a then s!"DIFF {cls} model={a.overlaps b},{b.overlaps a}"
+      else s!"OK {cls}"
+    | some _, _ => s!"DIFF {cls} unexpected-result {" ".intercalate rhs}"
+    | none, _ => s!"DIFF {cls} unparsable-input"
+  | "empty" =>
+    match pTwoN (t ++ ["NIL"]), rhs.map pBool with
+    | some (a, _, _), [some e] =>
+      if !emptyOkNaNB a e then s!"SPEC {cls} Empty={e}-contradicts-an-axis-without-NaN"
+      else if e != a.empty then s!"DIFF {cls} model={a.empty}"
+      else s!"OK {cls}"
+    | some _, _ => s!"DIFF {cls} unexpected-result {" ".intercalate rhs}"
+    | none, _ => s!"DIFF {cls} unparsable-input"
+  | "int" =>
+    match pTwoN t, pBoxResN 2 rhs with
+    | some (a, some b, _), some ([r1, r2], t2) =>
+      if t2.contains "argmut" then s!"SPEC {cls} Intersection-mutated-an-operand"
+      else if !intersectionOkNaNB a b r1 || !intersectionOkNaNB b a r2 then
+        s!"SPEC {cls} Intersection-is-a-box-whose-sides-on-an-axis-without-NaN-are-not-the-common-interval"
+      else if r1 != a.intersection b || r2 != b.intersection a then s!"DIFF {cls} model-differs"
+      else s!"OK {cls}"
+    | some _, _ => s!"DIFF {cls} unexpected-result {" ".intercalate (rhs.take 6)}"
+    | none, _ => s!"DIFF {cls} unparsable-input"
+  | "ext" =>
+    match pTwoN t, pBoxResN 1 rhs with
+    | some (a, ob, _), some ([some j], t1) =>
+      if t1.contains "argmut" then s!"SPEC {cls} Extend-mutated-its-argument"
+      else if j != a.extend ob then s!"DIFF {cls} model-differs"
+      else s!"OK {cls}"
+    | some _, _ => s!"DIFF {cls} unexpected-result {" ".intercalate (rhs.take 6)}"
+    | none, _ => s!"DIFF {cls} unparsable-input"
+  | "ext3" =>
+    match pTwoN t with
+    | some (a, some b, t') =>
+      match pTwoN (t' ++ ["NIL"]), pBoxResN 4 rhs with
+      | some (c, _, _), some ([some l, some r, some ba, some aa], _) =>
+        if l != (a.extend (some b)).extend (some c) || r != a.extend (some (b.extend (some c)))
+           || ba != b.extend (some a) || aa != a.extend (some a) then s!"DIFF {cls} model-differs"
+        else s!"OK {cls}"
+      | some _, _ => s!"DIFF {cls} unexpected-result {" ".intercalate (rhs.take 6)}"
+      | none, _ => s!"DIFF {cls} unparsable-input"
+    | _ => s!"DIFF {cls} unparsable-input"
+  | "self" =>
+    match pTwoN (t ++ ["NIL"]), rhs with
+    | some (b, _, _), "ovl" :: o1 :: o2 :: o3 :: o4 :: "int" :: r =>
+      match [o1, o2, o3, o4].map pBool, pBoxResN 2 r with
+      | [some o1, some o2, some o3, some o4], some ([i1, i2], "ext" :: r) =>
+        match pBoxResN 2 r with
+        | some ([some e1, some e2], r) =>
+          let os := [o1, o2, o3, o4]
+          if r.contains "argmut" then s!"SPEC {cls} operand-mutated"
+          else if os.any (fun o => !overlapsOkNaNB b b o) then s!"SPEC {cls} b.Overlaps(b)=true-although-an-axis-without-NaN-is-inverted"
+          else if !intersectionOkNaNB b b i1 || !intersectionOkNaNB b b i2 then
+            s!"SPEC {cls} b.Intersection(b)-is-a-box-whose-sides-on-an-axis-without-NaN-are-not-the-common-interval"
+          else if os.any (· != b.overlaps b) || i1 != b.intersection b || i2 != b.intersection b
+               || e1 != b.extendSelf || e2 != b.extendSelf then s!"DIFF {cls} model-differs"
+          else s!"OK {cls}"
+        | _ => s!"DIFF {cls} unexpected-result"
+      | _, _ => s!"DIFF {cls} unexpected-result"
+    | some _, _ => s!"DIFF {cls} unexpected-result {" ".intercalate (rhs.take 4)}"
+    | none, _ => s!"DIFF {cls} unparsable-input"
+  | _ => "OK skipped-nan"
+
 def judgeLine1 (line : String) : String :=
   let (lhs, rhs) := splitArrow (tokens line)
   if rhs.head? == some "timeout" then s!"SPEC {lhs.headD "?"} call-did-not-return-within-3s"
@@ -436,7 +537,7 @@ def judgeLine1 (line : String) : String :=
     -- one pointer on both sides; the specification does not care about pointers: a box shares a
     -- point with itself iff it has a point, its common rectangle with itself is itself (nil without area),
     -- its join with itself is itself
-    if hasNaNBox t then "OK skipped-nan" else
+    if hasNaNBox t then judgeBoxNaN "self" t rhs else
     match pTwo (t ++ ["NIL"]) with
     | some (b, _, _) =>
       let cls := "self-" ++ (if emptyB b then (if canon b then "emptybox" else "inverted") else if hasCommonAreaB b b then "area" else "degenerate")
@@ -521,7 +622,7 @@ def judgeLine1 (line : String) : String :=
     else if rhs.getLast? == some "1" then "SPEC copy Copy-aliases-the-receiver"
     else "SPEC copy Copy-differs"
   | "empty" :: t =>
-    if hasNaNBox t then "OK skipped-nan" else
+    if hasNaNBox t then judgeBoxNaN "empty" t rhs else
     match pTwo (t ++ ["NIL"]) with
     | some (a, _, _) =>
       let want := emptyB a
@@ -531,7 +632,7 @@ def judgeLine1 (line : String) : String :=
       else s!"OK empty-{want}"
     | none => "DIFF empty unparsable-input"
   | "ovl" :: t =>
-    if hasNaNBox t then "OK skipped-nan" else
+    if hasNaNBox t then judgeBoxNaN "ovl" t rhs else
     match pTwo t with
     | some (a, some b, _) =>
       let cls := "ovl-" ++ boxRel a b
@@ -543,7 +644,7 @@ def judgeLine1 (line : String) : String :=
       else s!"OK {cls}"
     | _ => "DIFF ovl unparsable-input"
   | "int" :: t =>
-    if hasNaNBox t then "OK skipped-nan" else
+    if hasNaNBox t then judgeBoxNaN "int" t rhs else
     match pTwo t with
     | some (a, some b, _) =>
       let cls := "int-" ++ boxRel a b
@@ -565,7 +666,7 @@ def judgeLine1 (line : String) : String :=
       | none => s!"SPEC {cls} unexpected-result {" ".intercalate rhs}"
     | _ => "DIFF int unparsable-input"
   | "ext" :: t =>
-    if hasNaNBox t then "OK skipped-nan" else
+    if hasNaNBox t then judgeBoxNaN "ext" t rhs else
     match pTwo t with
     | some (a, ob, _) =>
       let cls := match ob with
@@ -586,7 +687,7 @@ def judgeLine1 (line : String) : String :=
       | _ => s!"SPEC {cls} unexpected-result {" ".intercalate rhs}"
     | none => "DIFF ext unparsable-input"
   | "ext3" :: t =>
-    if hasNaNBox t then "OK skipped-nan" else
+    if hasNaNBox t then judgeBoxNaN "ext3" t rhs else
     match pTwo t with
     | some (a, some b, t') =>
       match pTwo (t' ++ ["NIL"]) with
